@@ -125,9 +125,11 @@ def numCls (s : Str) : Cls :=
 
 def colCls (s : Str) : Cls :=
   let ps := splitOn ',' s
-  let ts := ps.map trimBlanks
-  if ts.length = 4 ∧ ts.all (fun t => match rd t with | some b => unitOk b | none => false) then
-    if ps.all numeral then .legal else .odd
+  let okp (l : List Str) : Bool :=
+    decide (l.length = 4) && l.all (fun t => match rd t with | some b => unitOk b | none => false)
+  -- four plain numerals in range: legal as they stand; the same after trimming blanks: not asserted
+  if ps.all numeral && okp ps then .legal
+  else if okp (ps.map trimBlanks) then .odd
   else .bad
 
 /-- code points: hex digits only, a Unicode scalar value -/
